@@ -22,7 +22,7 @@ func init() {
 			"R1": "refresh Update in a `go` closure without loops, one store op, one send on a channel of capacity >= 1; parent select is blocking with a receive on that channel, on time.After(d) and on ctx.Done(); d == select[(H/2) if !(H/2 < 1s) | 1s if (H/2 < 1s)]",
 			"R2": "IsPermanentError(err)==true edge: a may-demote call then return; counter phi leaves are {0, counter, counter+1}; `3 <= counter+1` true edge: may-demote call then return; the 0 leaf (other than loop entry) only on the err == nil edge",
 			"R3": "every store operation / goroutine issuing one inside the refresh loop is guarded by claim == true read in that iteration",
-			"R4": "claim-set unit: go (tracked) of a closure calling the refresh loop, dominated by the claim Store(true), under the election mutex; every return of the loop: ctx.Done() case | claim false | a may-demote call precedes it in its block",
+			"R4": "claim-set unit: go (tracked) of a closure calling the refresh loop, dominated by the claim Store(true), under the election mutex; every return of the loop: claim false | a may-demote call precedes it (also on the ctx.Done() exits: a cancelled Start context must end the claim)",
 			"R5": "see C15-R3",
 			"R6": "see C08-R2/R3",
 			"R8": "the refresh loop's ticker period is cfg.HeartbeatInterval",
@@ -466,17 +466,19 @@ func checkC03(c *Ctx) {
 			why = "after a demotion inside the function whose result is tested"
 		} else if m.claimLit(gs, false) {
 			why = "claim is false"
-		} else {
-			for _, l := range gs {
-				if sel, k, ok := selectCaseOf(l); ok && k < len(sel.States) {
-					if s := m.Sym.Of(sel.States[k].Chan); s.Op == "invoke" && strings.HasSuffix(s.Name, "Context.Done") {
-						why = "ctx.Done()"
-					}
+		}
+		ctxDone := false
+		for _, l := range gs {
+			if sel, k, ok := selectCaseOf(l); ok && k < len(sel.States) {
+				if s := m.Sym.Of(sel.States[k].Chan); s.Op == "invoke" && strings.HasSuffix(s.Name, "Context.Done") {
+					ctxDone = true
 				}
 			}
 		}
 		if why != "" {
 			c.ok("R4", key, ret, "%s", why)
+		} else if ctxDone {
+			c.viol("R4", key, ret, "the refresh loop returns on ctx.Done() without clearing the claim: after a demotion or a Stop the claim is already clear, but when the context given to Start is cancelled nothing refreshes the record any more and the instance reports leadership of an expired record for ever (guards %s)", clip(fmtLits(gs), 300))
 		} else {
 			c.viol("R4", key, ret, "the refresh loop can return here while the claim stands and the election runs (guards %s): the record lapses under a leader that still claims leadership", clip(fmtLits(gs), 300))
 		}
